@@ -302,7 +302,7 @@ pub fn property() -> Property {
             name: "frames",
             rule: "see property rule",
             cases: (1_500_000, 5_000_000),
-            fuzz_decode: None,
+            fuzz_decode: Some(crate::fuzzdec::c10_case),
             strategy,
             check,
             required_classes: &["completed", "fragmented", "padding", "rej-crc", "rej-unknown-frag-id", "rej-no-storage", "rej-oversize", "rej-unknown-mandatory", "rej-unresolvable-reuse", "signalling/final-mandatory", "pdu<=2-bytes", "garbage-after-first-packet", "orphan-fragment"],
